@@ -250,6 +250,9 @@ func (w *c10World) genAttack(t *rapid.T, s *Sim) *Action {
 		a.MsgProv = claimed(s.acctOf(o.Provider))
 		a.Extra["legitCreator"], a.Extra["legitProv"] = fmt.Sprint(s.acctOf(o.Creator)), "-1"
 		a.Extra["variant"] = fmt.Sprintf("claims-%s", w.who(a.MsgProv))
+		if rapid.IntRange(0, 3).Draw(t, "insiderAttack") == 0 {
+			w.insider(t, a, s.acctOf(o.Provider), w.providers, []int{s.acctOf(o.Provider), -1})
+		}
 		return a
 	case "complete":
 		var cands []ordertypes.Shard
@@ -271,6 +274,11 @@ func (w *c10World) genAttack(t *rapid.T, s *Sim) *Action {
 		a.MsgProv = claimed(s.acctOf(sh.Sp))
 		a.Extra["legitCreator"], a.Extra["legitProv"] = fmt.Sprint(s.acctOf(sh.Sp)), "-1"
 		a.Extra["variant"] = fmt.Sprintf("claims-%s", w.who(a.MsgProv))
+		if rapid.IntRange(0, 2).Draw(t, "insiderAttack") == 0 {
+			// another victim party reports the shard for its provider: the order's gateway, its hot key, another provider
+			// (Complete acts on the shard of msg.Provider: only naming the victim is acting for it)
+			w.insider(t, a, s.acctOf(sh.Sp), []int{w.gateway, 7, 3, 4, 5}, []int{s.acctOf(sh.Sp)})
+		}
 		return a
 	case "ready":
 		var cands []ordertypes.Order
@@ -288,6 +296,9 @@ func (w *c10World) genAttack(t *rapid.T, s *Sim) *Action {
 		a.MsgProv = claimed(s.acctOf(o.Provider))
 		a.Extra["legitCreator"], a.Extra["legitProv"] = fmt.Sprint(s.acctOf(o.Provider)), "-1"
 		a.Extra["variant"] = fmt.Sprintf("claims-%s", w.who(a.MsgProv))
+		if rapid.IntRange(0, 3).Draw(t, "insiderAttack") == 0 {
+			w.insider(t, a, s.acctOf(o.Provider), w.providers, []int{s.acctOf(o.Provider), -1})
+		}
 		return a
 	case "migrate":
 		var cands []ordertypes.Shard
@@ -309,6 +320,22 @@ func (w *c10World) genAttack(t *rapid.T, s *Sim) *Action {
 		a.MsgProv = claimed(s.acctOf(sh.Sp))
 		a.Extra["legitCreator"], a.Extra["legitProv"] = fmt.Sprint(s.acctOf(sh.Sp)), "-1"
 		a.Extra["variant"] = fmt.Sprintf("claims-%s", w.who(a.MsgProv))
+		if rapid.IntRange(0, 2).Draw(t, "insiderAttack") == 0 {
+			// parties that hold no shard of this data id themselves (a holder may migrate its own shard)
+			holds := map[int]bool{}
+			for _, x := range sortedShards(sn) {
+				if lo, ok := listingOrder(sn, x); ok && lo.DataId == o.DataId {
+					holds[s.acctOf(x.Sp)] = true
+				}
+			}
+			var pool []int
+			for _, c := range []int{w.gateway, 7, 3, 4, 5} {
+				if !holds[c] && !(c == 7 && holds[w.gateway]) {
+					pool = append(pool, c)
+				}
+			}
+			w.insider(t, a, s.acctOf(sh.Sp), pool, []int{s.acctOf(sh.Sp), -1})
+		}
 		return a
 	case "store":
 		// a captured owner-signed proposal naming the victim gateway, submitted by the attacker
@@ -337,6 +364,40 @@ func (w *c10World) genAttack(t *rapid.T, s *Sim) *Action {
 		a.Extra["variant"] = "own-node-only"
 		return a
 	}
+}
+
+// insider replaces the sender of an attack by one of the victim parties that is NOT entitled to
+// the action: another storage provider, the gateway, or the gateway's registered hot key acting for
+// a provider (legit = the account entitled to it). Returns false when no such party exists.
+func (w *c10World) insider(t *rapid.T, a *Action, legit int, pool []int, claims []int) bool {
+	var cands []int
+	for _, c := range pool {
+		if c == legit || (legit == w.gateway && c == 7) { // 7 is the gateway's own registered address
+			continue
+		}
+		cands = append(cands, c)
+	}
+	if len(cands) == 0 {
+		return false
+	}
+	a.Creator = rapid.SampledFrom(cands).Draw(t, "insider")
+	a.MsgProv = rapid.SampledFrom(claims).Draw(t, "insiderClaims")
+	who := "provider"
+	switch a.Creator {
+	case w.gateway:
+		who = "gateway"
+	case 7:
+		who = "gateway-hot-key"
+	}
+	claimed := "self"
+	switch a.MsgProv {
+	case legit:
+		claimed = "victim"
+	case w.gateway:
+		claimed = "gateway"
+	}
+	a.Extra["variant"] = fmt.Sprintf("insider-%s-claims-%s", who, claimed)
+	return true
 }
 
 func (w *c10World) who(i int) string {
